@@ -95,6 +95,8 @@ KDATA = [
     # signifiers that combine with a neighbour in the grammar (one decoration each): conservation only, not canonicity
     note('4', 'c', '', ['L>'], src='4cL>'), note('4', 'd', '', ['&('], src='&(4d'), note('8', 'e', '', ['xx'], src='8exx'), note('4', 'f', '', ['??'], src='4f??'),
     rest('4', ['yy']),
+    # rests with a vertical position mark (kernpy keeps it as a signifier) and a note with two different articulation marks written in non-canonical order
+    rest('4', ['gg'], src='4rgg'), rest('8', ['GG', ';'], src='8rGG;'), note('4', 'b', '', ["'", '~'], src="4b~'"),
     NULL_D,
 ]
 # duration-less notes and rests for **root columns (kernpy parses **root with the kern grammar)
